@@ -45,9 +45,15 @@ P = {
         "of them, e.g. [$-411]aaaa, ggge\"年\", bbbb, is DateTime); C10_scanner_counters_bounded (the u8 counters of the scanner cannot "
         "overflow); the scanner model has the General keyword look-ahead. Both built-in tables agree with each other and with the ECMA-376 list for all 65536 codes "
         "(finite sweep lifted by forallb_forall, bound in the statement), and date_iff_style for the xlsx/xls/xlsb style plumbing. "
-        "No known class left (seven repaired in /repo). Tie: hooks on the scanner and tables (all strings up to length 5 "
-        "over the significant alphabet and over a second alphabet with the era / Buddhist letters, the exponent context and the start "
-        "of General; grammar derivations with the new tokens; all codes) and generated xlsx/xls/xlsb files through the public API.",
+        "xlsb: xl/styles.bin is modelled as a byte stream (XlsbStyles.v: Xlsb::read_styles record by record) and "
+        "C10_xlsb_read_styles / _styles_independent / _date_iff_style_xlsb_bytes hold for every legal layout of the part: any records "
+        "before, between and behind FMTS and CELLXFS (FONTS, FILLS, BORDERS, CELLSTYLEXFS with BrtXF records of its own), any records "
+        "between the items of the two collections, any bytes behind the fields read, any framing form, the bodies arbitrary (the byte "
+        "pairs E7 04 / E9 04 = ids of BrtBeginFmts / BrtBeginCellXFs included); C10_no_panic_xlsb_read_styles on every byte string. "
+        "No known class left. Tie: hooks on the scanner and tables (all strings up to length 5 "
+        "over the significant alphabet and over a second alphabet with the era / Buddhist letters, the exponent context and the start of General; grammar derivations with the new tokens; all codes), hook on read_styles (random Excel-shaped styles.bin layouts with "
+        "colliding colours / names, Coq encoder = Python encoder byte for byte, malformed parts) and generated xlsx/xls/xlsb files "
+        "(xlsb: those styles parts, cells as long or short records) through the public API.",
    note=TB + " RK bit decoding, text->f64 parsing and atoi on the s attribute are computed by the driver, not modelled.",
    technique="Coq proof (token-list induction with scanner-state invariant; finite table sweep) + extracted-model correspondence",
    design_ref="5/C10"),
@@ -215,14 +221,19 @@ P = {
  "C03": dict(claimed=True,
    text="Coq theorems over XlsbRec.v (on RK, Utf16, Range): C03_varint_roundtrip (every record id in its 1- or 2-byte form and every "
         "length in its minimal and padded 1-4-byte forms decode to themselves and consume exactly their bytes; arithmetic, no sweep) "
-        "and C03_record_frame; C03_ignorable_transparent (inserting any well-framed record the cell reader does not interpret, "
-        "anywhere, leaves its outcome unchanged; induction over the record list + fuel irrelevance); C03_cell_table(_values) for "
-        "every interpreted record kind incl. the four BrtFmla kinds and BrtRowHdr; RK theorems incl. the xlsb/xls difference; "
-        "C03_sst_roundtrip; C03_xlsb_sheet_main / _workbook_main: for every logical sheet and every legal encoding (record kind per "
-        "value, RK forms vs BrtCellReal, framing forms, ignorable records anywhere, BrtWsDim absent, exact or wrong, empty rows, any trailer, rows in any order) "
-        "the model of worksheet_range_ref + from_sparse returns range_of sheet, via from_sparse_spec, unbounded; BrtWsDim absent is a "
-        "legal layout too (no known class left: wsdim_absent repaired in /repo by 011a4fd). Totality: C03_no_panic_framing / _header / "
-        "_reader / _cell_loop / _sst / _range_ref / _workbook (every byte string). Tie: hook on the record framing, generated .xlsb packages (tools/xlsbgen.py) through "
+        "and C03_record_frame; C03_ignorable_transparent (inserting any well-framed record whose id is none of BrtRowHdr, the cell records "
+        "1..11, the short cell records 12..18, BrtEndSheetData, anywhere — between short records too — and in any reader state (row, next column) "
+        "leaves the outcome unchanged; induction over the record list + fuel irrelevance); C03_other_records_ignored (the records a layout may carry as "
+        "'other' are defined from the format's cell-table grammar, not from the code); C03_cell_table(_values) for "
+        "every long record kind incl. the four BrtFmla kinds and BrtRowHdr, C03_short_cell_table for the seven short kinds BrtShortBlank .. BrtShortIsst "
+        "(no column field: the cell stands right of the previous cell record of its row, a blank one included); RK theorems incl. the xlsb/xls difference; "
+        "C03_sst_roundtrip; C03_xlsb_sheet_main / _main_any_order / _workbook_main: for every logical sheet and every legal encoding (record kind per "
+        "value, long or short record for a cell that follows another one, RK forms vs BrtCellReal, framing forms, other records anywhere, BrtWsDim absent, exact or wrong, "
+        "empty rows, any trailer, rows in any order) "
+        "the model of worksheet_range_ref + from_sparse returns range_of sheet, via from_sparse_spec, unbounded (invariant: next_col = previous column + 1). "
+        "No known class left (wsdim_absent repaired by 011a4fd, short records by the xlsbE fix). Totality: C03_no_panic_framing / _header / "
+        "_reader / _cell_loop / _sst / _range_ref / _workbook (every byte string). Tie: hook on the record framing, generated .xlsb packages (tools/xlsbgen.py: "
+        "runs of short records as SheetJS writes them, Excel-shaped styles.bin) through "
         "Xlsb::new + worksheet_range(_ref), malformed parts with panic prediction.",
    note=TB + " zip/XML parts of the package, styles.bin parsing beyond the format table, next_formula/parse_formula (C14) are outside this model; "
         "ranges above ~300k cells are skipped on the model side (counted).",
@@ -401,7 +412,7 @@ STALE = set()
 STALE_REASON = ("temporarily not claimed: a shared model file this slice imports (Col26.v / Range.v) was just re-synchronised with the "
                 "hardened code and the slice's bridge lemmas are being re-proved against it; until that is merged the slice's proof "
                 "files do not all compile")
-HOOK_COMMITS = ["6e4993e", "bb5031b", "a67f951", "bdf3a94", "d6d3370", "13b2ff0", "132a2f1"]
+HOOK_COMMITS = ["6e4993e", "bb5031b", "a67f951", "bdf3a94", "d6d3370", "13b2ff0", "132a2f1", "e246db2"]
 if __name__ == "__main__":
     main()
     # the source baseline (tools/source_baseline.json) belongs to the same /repo HEAD as the manifest
